@@ -255,11 +255,11 @@ CLAIMED = {
              "paths for a[i] and a[i] = v (get_dense_property / set_dense_property), the dense path of Array.prototype.shift, and the generic "
              "shift algorithm written over get/insert/remove: abs_getDense, abs_setDense, abs_shiftDense (each denotes the map operation), "
              "shiftGeneric_abs (closed form of steps 4-7 on ANY variant, holes included), shift_fast_eq_generic (fast path = generic algorithm), "
-             "jsSet_abs / jsGet_abs / jsShift_abs and js_storage_independent (a[k], a[k] = v and a.shift() cannot tell two storages of the same "
-             "contents apart). Tie: a real array driven through the VM and the builtins, storage variant + length + contents compared with the "
+             "jsSet_abs / jsGet_abs / jsShift_abs, jsShift_readonly_length (both paths of shift honour a read-only `length`: TypeError, length unchanged) and js_storage_independent (a[k], a[k] = v, a.push(v) and a.shift() — results, exceptions, contents, length — cannot tell two storages of the same "
+             "observable state apart). Tie: a real array driven through the VM and the builtins, storage variant + length + contents compared with the "
              "model after every operation.",
         technique="Lean 4 refinement proofs (5 storage variants -> finite map; VM dense get/set and Array.prototype.shift fast paths = generic algorithm) + PropertyMap and real-array correspondence + cross-storage JS differential",
-        note="The other Array.prototype algorithms and the writability of `length` are compared across storage forms, not specified in Lean; the key order reported over an arbitrarily ordered index storage is proved under C20 (ownKeys_eq_spec, ownKeys_storage_independent).",
+        note="The other Array.prototype algorithms are compared across storage forms, not specified in Lean; the key order reported over an arbitrarily ordered index storage is proved under C20 (ownKeys_eq_spec, ownKeys_storage_independent).",
     ),
     "C05": dict(
         level="proof",
